@@ -253,3 +253,80 @@ package queue
 //@   ensures [C04:stale_err] let now := storeNow :: extendBy > 0 && !old(liveLease(s, leaseID, now)) ==> result == ErrLeaseNotFound || result == ErrLeaseExpired
 //@   ensures [C04:stale_no_effect] let now := storeNow :: extendBy > 0 && !old(liveLease(s, leaseID, now)) ==> staleNoEffect(s, leaseID, now)
 //@   ensures [C02:extend_effect] let now := storeNow :: extendBy > 0 && old(liveLease(s, leaseID, now)) ==> othersUntouched(s, old(s.leases[leaseID])) && leasesSame(s) && old(s.leases[leaseID]) in s.items && s.items[old(s.leases[leaseID])] == old(s.items[s.leases[leaseID]]) && sameExcept(s.items[old(s.leases[leaseID])], LeaseUntil, NextRunAt) && s.items[old(s.leases[leaseID])].LeaseUntil == old(s.items[s.leases[leaseID]].LeaseUntil) + extendBy && s.items[old(s.leases[leaseID])].NextRunAt == s.items[old(s.leases[leaseID])].LeaseUntil
+
+// ---- C01: SQLite write paths answer only after COMMIT (Go-side transaction bracket; SQL text is opaque) ----
+
+//@ func (*SQLiteStore).observeSQLite*
+//@   trusted
+//@ func (*SQLiteStore).incSQLiteRetry
+//@   trusted
+//@ func (*SQLiteStore).maybePrune
+//@   trusted
+//@   modifies durable
+//@   ensures durable >= old(durable)
+//@ func (*SQLiteStore).now
+//@   trusted
+//@ func (*SQLiteStore).signal
+//@   trusted
+//@   modifies signals
+//@   ensures signals == old(signals) + 1
+//@ func isSQLiteBusyError
+//@   trusted
+//@ func mapQueueInsertError
+//@   trusted
+//@   ensures err != nil ==> result != nil
+//@ func marshalStringMap
+//@   trusted
+//@ func (*SQLiteStore).activeDepthCount
+//@   trusted
+//@ func (*SQLiteStore).activeDepthCountTx
+//@   trusted
+//@ func (*SQLiteStore).dropOldestQueued
+//@   trusted
+//@   modifies txPending
+//@   ensures txPending >= old(txPending)
+
+//@ func (*SQLiteStore).commitTx
+//@   requires s != nil && conn != nil
+//@   modifies durable, txOpen, txPending
+//@   ensures [C01:nil_only_after_commit] result == nil ==> durable == old(durable) + old(txPending) && !txOpen && txPending == 0
+//@   ensures [C01:failed_commit_commits_nothing] result != nil ==> durable == old(durable)
+
+//@ func (*SQLiteStore).rollbackTx
+//@   requires s != nil && conn != nil
+//@   modifies durable, txOpen, txPending
+//@   ensures [C01:rollback_discards] durable == old(durable) && txPending == 0 && !txOpen
+
+//@ func (*SQLiteStore).beginImmediateWithRetry
+//@   requires s != nil && conn != nil
+//@   modifies durable, txOpen, txPending
+//@   loop 1 invariant [nothing_yet] durable == old(durable) && txOpen == old(txOpen) && txPending == old(txPending)
+//@   ensures [C01:begin_opens_empty_tx] result1 == nil ==> txOpen && txPending == 0 && durable == old(durable)
+//@   ensures [C01:begin_failure_changes_nothing] result1 != nil ==> durable == old(durable) && txOpen == old(txOpen) && txPending == old(txPending)
+
+//@ func (*SQLiteStore).enqueueWithLimit$1
+//@   requires s != nil && conn != nil
+//@   modifies durable, txOpen, txPending
+//@   ensures [C01:rollback_unless_committed] (committed ==> durable == old(durable) && txOpen == old(txOpen) && txPending == old(txPending)) && (!committed ==> durable == old(durable) && txPending == 0 && !txOpen)
+
+//@ func (*SQLiteStore).enqueueWithLimit
+//@   requires s != nil && s.db != nil && !txOpen && txPending == 0
+//@   modifies durable, txOpen, txPending, signals
+//@   calls signal requires [C01:signal_only_after_commit] durable > old(durable) && !txOpen
+//@   ensures [C01:nil_implies_committed] result == nil ==> durable > old(durable)
+//@   ensures [C01:error_implies_nothing_committed] result != nil ==> durable == old(durable)
+//@   ensures [C01:no_transaction_left_open] !txOpen && txPending == 0
+
+//@ func (*SQLiteStore).Enqueue
+//@   requires s != nil && s.db != nil && !txOpen && txPending == 0
+//@   label P after call maybePrune
+//@   modifies durable, txOpen, txPending, signals
+//@   calls signal requires [C01:signal_only_after_commit] durable > at(P, durable)
+//@   ensures [C01:nil_implies_committed] result == nil ==> durable > old(durable)
+
+//@ func (*SQLiteStore).migrate
+//@   trusted
+//@ func (*SQLiteStore).init
+//@   requires s != nil && s.db != nil
+//@   modifies durable, walRequested, syncFullSet
+//@   ensures [C01:durability_pragmas_set_before_use] result == nil ==> walRequested && syncFullSet
